@@ -64,16 +64,18 @@ pub fn vx_set_token_tag(tokens: &mut Tokens, i: usize, s: String)
 { tokens[i].0 = s; }
 
 // ---- externals: regex-based helpers (uninterpreted) ----
-pub uninterp spec fn spec_env_in_token(t: Seq<char>) -> bool;
+// the gate env_in_word(text, quoted): `quoted` = the word was written in double quotes (there a `'` is an ordinary character: C10, "q='$V'")
+pub uninterp spec fn spec_env_in_word(t: Seq<char>, q: bool) -> bool;
+pub open spec fn is_dq(sep: Seq<char>) -> bool { sep == "\""@ }
 pub open spec fn has_op(s: Seq<char>) -> bool { s.contains('|') || s.contains('&') || s.contains('<') || s.contains('>') }
 // which words expand_env may touch, and what one word may look like afterwards
-pub open spec fn env_elig(t: Token) -> bool { t.0@ != "`"@ && t.0@ != "'"@ && t.0@ != "\\"@ && spec_env_in_token(t.1@) }
+pub open spec fn env_elig(t: Token) -> bool { t.0@ != "`"@ && t.0@ != "'"@ && t.0@ != "\\"@ && spec_env_in_word(t.1@, is_dq(t.0@)) }
 pub open spec fn has_redir(s: Seq<char>) -> bool { s.contains('<') || s.contains('>') }
 pub open spec fn env_tok_ok(sh: Shell, otoks: Seq<Token>, k: int, n: Token) -> bool {
     let o = otoks[k];
     &&& (!env_elig(o) ==> n.1@ == o.1@ && n.0@ == o.0@)
     // C10: the new text is the specified single-pass expansion of the old text
-    &&& (env_elig(o) ==> n.1@ == env_expand(sh, o.1@))
+    &&& (env_elig(o) ==> n.1@ == env_expand(sh, o.1@, is_dq(o.0@)))
     // the tag is kept, or an unquoted word into which the value brought an operator character becomes double-quoted
     &&& (n.0@ == o.0@ || (o.0@.len() == 0 && n.0@ == "\""@ && !has_redir(o.1@) && has_op(n.1@)))
     // C13: an operator character in a word that is still unquoted was written there, it did not come from a value
@@ -107,9 +109,9 @@ pub proof fn lemma_env_gap(b: Seq<(usize, String)>, m: int, k: int, n: int)
     }
 }
 
-// env_in_token: uninterpreted; a reference needs at least the `$` (assumed)
+// env_in_word: uninterpreted; a reference needs at least the `$` (assumed)
 #[verifier::external_body]
-pub fn env_in_token(token: &str) -> (r: bool) ensures r == spec_env_in_token(token@), r ==> token@.len() > 0 { unimplemented!() }
+pub fn env_in_word(token: &str, quoted: bool) -> (r: bool) ensures r == spec_env_in_word(token@, quoted), r ==> token@.len() > 0 { unimplemented!() }
 // ---- regex + process environment for expand_one_env ----
 pub struct VxRegex { pub id: i32 }
 pub struct VxCap { pub g1: String, pub g2: String, pub g3: String }
@@ -173,16 +175,16 @@ pub open spec fn one_env(sh: Shell, t: Seq<char>) -> (Seq<char>, Seq<char>) {
 // spec_subst(t): the first `$(..)` / backquote substitution of t as (length of the text in front of it, length of the text behind it); contract of
 // split_first_substitution proved in U-EXP3 (head is a prefix without an opening, tail a proper suffix).
 pub uninterp spec fn spec_subst(t: Seq<char>) -> Option<(int, int)>;
-pub open spec fn skips_subst(t: Seq<char>) -> bool {
+pub open spec fn skips_subst(t: Seq<char>, q: bool) -> bool {
     spec_subst(t).is_some() && 0 <= spec_subst(t).unwrap().0 && 0 <= spec_subst(t).unwrap().1 && spec_subst(t).unwrap().0 + spec_subst(t).unwrap().1 < t.len()
-    && !spec_env_in_token(t.take(spec_subst(t).unwrap().0))
+    && !spec_env_in_word(t.take(spec_subst(t).unwrap().0), q)
 }
-pub open spec fn env_expand(sh: Shell, t: Seq<char>) -> Seq<char>
+pub open spec fn env_expand(sh: Shell, t: Seq<char>, q: bool) -> Seq<char>
     decreases t.len()
 {
-    if !spec_env_in_token(t) || t.len() == 0 { t }
-    else if skips_subst(t) { t.take(t.len() - spec_subst(t).unwrap().1) + env_expand(sh, t.skip(t.len() - spec_subst(t).unwrap().1)) }
-    else if one_env(sh, t).1.len() < t.len() { one_env(sh, t).0 + env_expand(sh, one_env(sh, t).1) }
+    if !spec_env_in_word(t, q) || t.len() == 0 { t }
+    else if skips_subst(t, q) { t.take(t.len() - spec_subst(t).unwrap().1) + env_expand(sh, t.skip(t.len() - spec_subst(t).unwrap().1), q) }
+    else if one_env(sh, t).1.len() < t.len() { one_env(sh, t).0 + env_expand(sh, one_env(sh, t).1, q) }
     else { one_env(sh, t).0 }
 }
 #[verifier::external_body]
@@ -518,12 +520,12 @@ expand_env = Fn(S, 'expand_env', rewrites=TYRW, props=('C10',),
             ('C10+C13+C01.inv.expand_env.idx', 'idx == __i0 && tokens@ == old(tokens)@'),
             ('C10+C13+C01.inv.expand_env.buff',
              'forall|m: int| 0 <= m < buff@.len() ==> (#[trigger] buff@[m]).0 < __i0 && env_elig(tokens@[buff@[m].0 as int]) '
-             '&& buff@[m].1@ == env_expand(*sh, tokens@[buff@[m].0 as int].1@)'),
+             '&& buff@[m].1@ == env_expand(*sh, tokens@[buff@[m].0 as int].1@, is_dq(tokens@[buff@[m].0 as int].0@))'),
             ('C10+C13.inv.expand_env.buff_increasing', 'env_incr(buff@)'),
             ('C10.inv.expand_env.every_eligible_word_is_rewritten', 'forall|k: int| 0 <= k < __i0 && env_elig(#[trigger] tokens@[k]) ==> env_inb(buff@, k)'),
         ]),
         # the scan: what has been produced so far, followed by the specified expansion of what is left, is the specified expansion of the word
-        1: Loop(invariant=[('C10.inv.expand_env.single_pass', '_token@ + env_expand(*sh, rest@) == env_expand(*sh, token@)')],
+        1: Loop(invariant=[('C10.inv.expand_env.single_pass', '_token@ + env_expand(*sh, rest@, quoted) == env_expand(*sh, token@, quoted) && quoted == is_dq(sep@)')],
                 decreases='rest@.len()'),
         2: Loop(invariant=[
             ('C10+C13+C01.inv.expand_env.frame',
@@ -532,13 +534,13 @@ expand_env = Fn(S, 'expand_env', rewrites=TYRW, props=('C10',),
              '&& (forall|k: int| env_lo(buff@, __i2 as int, tokens@.len() as int) <= k < tokens@.len() ==> env_tok_ok(*sh, old(tokens)@, k, #[trigger] tokens@[k]))'),
             ('C10+C13+C01.inv.expand_env.buff2',
              'forall|m: int| 0 <= m < buff@.len() ==> (#[trigger] buff@[m]).0 < tokens@.len() && env_elig(old(tokens)@[buff@[m].0 as int]) '
-             '&& buff@[m].1@ == env_expand(*sh, old(tokens)@[buff@[m].0 as int].1@)'),
+             '&& buff@[m].1@ == env_expand(*sh, old(tokens)@[buff@[m].0 as int].1@, is_dq(old(tokens)@[buff@[m].0 as int].0@))'),
             ('C10+C13.inv.expand_env.buff_increasing2', 'env_incr(buff@)'),
             ('C10.inv.expand_env.every_eligible_word_is_rewritten2', 'forall|k: int| 0 <= k < tokens@.len() && env_elig(#[trigger] old(tokens)@[k]) ==> env_inb(buff@, k)'),
         ]),
     },
     hints={'before-text:buff.push((idx, _token));': 'lemma_env_inb_push(buff@, (idx, _token));',
-           'loop-1-exit': 'assert(env_expand(*sh, rest@) == rest@);',
+           'loop-1-exit': 'assert(env_expand(*sh, rest@, quoted) == rest@);',
            'loop-2-body-entry': 'lemma_quote_lit(); '
                # the words up to the one being rewritten are still the original ones (the loop runs from the right): the prefix test sees the old line
                'assert(__i2 < buff@.len() ==> buff@[__i2 - 1].0 < buff@[__i2 as int].0); '
@@ -568,6 +570,6 @@ UNIT = Unit('U-EXP2', TEMPLATE, fns=[common.has_operator_fn(), common.in_assignm
 TRUSTED = common.TRUSTED_STR + common.TRUSTED_TOKEN + [
     'HashMap<String,String> insert/contains_key/remove/get: std contracts stated over the string views (shims)',
     'parse_line is external here: the tokenization of an alias value is an uninterpreted function of the value',
-    'env_in_token and the captures of expand_one_env are uninterpreted (regex crate); get_user_home is an environment lookup (assumed stable during the pass)',
+    'env_in_word (the gate of expand_env) and the captures of expand_one_env are uninterpreted (regex crate); get_user_home is an environment lookup (assumed stable during the pass)',
     'split_first_substitution is external here: its contract (head a prefix without an opening, tail a proper suffix) is the one proved in U-EXP3',
 ]
